@@ -23,19 +23,19 @@ claim("C01", "S (symfield)", "symbolic execution of the real generic prover/veri
       "Partial: Fiat-Shamir schedule agreement prover vs verifier and opening-claim agreement on lookup-free shapes, for all witnesses/instances within an enumerated shape family (num_proofs 1..3 x committed/plain instance columns 0..2, k=4). Not end-to-end completeness.",
       "Trusted: SymF/SymCS/SymTranscript models (term DAG, injective challenge function), solvers. Outside: lookups on the prover side, MSM/FFT/pairings (C12/C13), every other reason a proof could fail.", "DESIGN 3 C01, 8")
 claim("C02", "S (symfield)", "symbolic execution of the real verifier and real keygen at a term-building field; polynomial identities normalised and decided by SMT; EUF partition queries for the permutation",
-      "The verifier's algebraic check equals a from-definitions specification of every constraint class (gates, permutation, lookups, trash, instance queries) on an enumerated shape family, for all evaluation values; the vk's permutation and fixed columns equal the development-time checker's (MockProver) on the same circuits.",
+      "The verifier's algebraic check equals a from-definitions specification of every constraint class (gates, permutation, lookups, trash, instance queries) on an enumerated shape family incl. static (assign_table) and dynamic lookup tables, for all evaluation values; the vk's permutation and fixed columns equal the development-time checker's (MockProver) on the same circuits.",
       "Trusted: specification written from the halo2/PLONK definitions, SymF models, solvers. Outside: cryptographic soundness of KZG/Fiat-Shamir, the prover, floor planners other than SimpleFloorPlanner.", "DESIGN 3 C02, 8")
 claim("C03", "S (symfield)", "SMT (datatype/EUF) queries over the recorded transcript logs of the real prover/verifier run on a symbolic field",
-      "Structural binding conditions only: vk first, absorb-before-squeeze, every proof element bound, statement -> absorbed sequence injective (lengths 0..3, <= 2 columns). Not cryptographic binding.",
+      "Structural binding conditions only: vk first, absorb-before-squeeze, every proof element bound, statement -> absorbed sequence injective (lengths 0..3, <= 2 columns). Kani part: assert_empty, the Blake2b and Poseidon transcript readers of proof points / scalars accept only full-length encodings that pass the curve / subgroup / canonicity oracles. Not cryptographic binding.",
       "Trusted: transcript model. Outside: everything cryptographic; bit-flip exhaustion; Kani part for trailing bytes / decoders pending.", "DESIGN 3 C03")
 claim("C04", "C (csmt)", "SMT (z3 || cvc5) over constraint systems extracted from the real synthesis, every advice/instance cell symbolic over F_p (UF field products + sound lemmas); counterexamples replayed on the real MockProver",
-      "Soundness of every native-field gadget operation (arithmetic, comparison, decomposition, bitwise, division, selection, vector and map gadgets) per (operation, parameter tuple) of an enumerated family, for ALL assignments; the verifying key of the real keygen commits to the structure checked; completeness decided by the solver for the shapes whose constraint system is triangular (Skolem witnesses read off the system), at sampled admissible and solver-filtered boundary inputs (honest runs) for the rest.",
+      "Soundness of every native-field gadget operation (arithmetic, comparison, decomposition incl. the core decomposition chip called directly, bitwise, division, selection, chains through the gadget's bound cache, vector and map gadgets) per (operation, parameter tuple) of an enumerated family, for ALL assignments; the verifying key of the real keygen commits to the structure checked; completeness decided by the solver for the shapes whose constraint system is triangular (Skolem witnesses read off the system), at sampled admissible and solver-filtered boundary inputs (honest runs) for the rest.",
       "Trusted: MockProver's view of the circuit = keygen's (decided under C02 for its shapes), specs written from trait docs, field-lemma abstraction (sound), solvers. C09 assumed, spot-checked.", "DESIGN 2.C, 3 C04, 8")
 claim("C05", "C (csmt + ffchain)", "SMT over extracted constraint systems; foreign-field gate groups decided by a chain of solver obligations (range, CRT reconstruction, magnitude bound, CRT lemma, lifting) feeding residue hypotheses to the main query",
       "Soundness of emulated-field operations (secp256k1 base/scalar, BLS12-381 base; Curve25519 fields at the thorough tier) for all limb representations within the chip's bounds, per (field, operation) shape.",
       "Trusted: as C04 plus the composition of the chain's links (standard CRT argument) performed by the checker. Outside: BigUint gadgets, bit/byte conversions of emulated elements, completeness.", "DESIGN 3 C05, 8")
 claim("C06", "C (csmt)", "SMT over extracted constraint systems with monomial normalisation of field products",
-      "Narrow, gate level: the native Edwards chip's add/double/negate/select/equality/exposure constraints imply the textbook denominator-cleared equations for all assignments. Not the group law, not scalar multiplication, not foreign curves.",
+      "Narrow, gate level: the native Edwards chip's add/double/negate/select/equality/exposure constraints and the scalar-multiplication ladder rows for short scalars (functional + determinism) imply the textbook denominator-cleared equations for all assignments. Not the group law, not scalar multiplication, not foreign curves.",
       "Trusted: as C04. Outside: listed in evidence (subgroup membership, mul/msm, hash-to-curve, foreign ECC gates).", "DESIGN 3 C06")
 claim("C08", "C (csmt)", "SMT over the extracted exposure circuits (all assignments) + concrete comparison of the off-circuit encoder with the honest instance",
       "Partial: for bit/byte/native values, emulated field elements and Jubjub points, the cells the chip's own exposure puts on the instance column determine the value and satisfy the type's range invariant (all assignments); the off-circuit encoder equals the honest instance at boundary and seeded values (concrete).",
@@ -47,7 +47,7 @@ claim("C11", "K (Kani) + M (mir2smt)", "Kani/CBMC harnesses with blst FFI stubbe
       "Narrow: checked decoders consult and respect the on-curve/subgroup/canonicity oracles for all byte strings; coordinate constructors/accessors and equality are consistent with blst's Jacobian representation. Not the group law.",
       "Trusted: blst (oracle), Kani/CBMC, MIR translator. Outside: add/double/mul correctness (blst), Jubjub formulas as group law.", "DESIGN 3 C11, 8")
 claim("C12", "K (Kani) + S (symfield)", "Kani over all 32-byte scalars for the Booth encoding; real FFT/domain code executed on linear symbolic forms, coefficient identities decided by SMT; batch-affine adder on a toy curve decided by CBMC",
-      "Booth digits/telescoping for all scalars and window sizes 1..16; best_fft = DFT matrix for n = 2..64 under several thread pools; EvaluationDomain conversions/rotations/division/interpolation for all vector entries; batch-affine addition on a toy curve for all points.",
+      "Booth digits/telescoping for all scalars and window sizes 1..16; the real generic msm_serial at toy groups with 1-, 2- and 3-byte scalar fields (all scalars, 1..4 bases); best_fft = DFT matrix for n = 2..64 under several thread pools; EvaluationDomain conversions/rotations/division/interpolation for all vector entries; batch-affine addition on a toy curve for all points.",
       "Trusted: LinF/SymF models, Kani. Outside: blst multi_exp, thread schedules beyond those run, sizes beyond the bounds.", "DESIGN 3 C12, 8")
 claim("C14", "S (symfield)", "real KZG multi_prepare executed on a symbolic pairing engine (discrete-log model); guard polynomial identity decided after normalisation by SMT",
       "Completeness identity, DuplicatedQuery and eval-binding of the real multi_prepare for all assignment patterns of <= 3 points to 1 chopped + <= 3 one-piece commitments, symbolic polynomials and toxic waste.",
@@ -59,7 +59,7 @@ claim("C18", "C (csmt) + K (Kani)", "SMT over the constraint system of the compi
       "Partial: per operation on Native/Bool/Bytes operands, the compiled circuit accepts exactly the published values the documented semantics prescribes (all assignments); the off-circuit evaluator agrees at the concrete inputs run.",
       "Also BigUint operands (add/sub/mul/is_equal/inner_product/into_bytes/from_bytes/mod_exp e <= 3; part C18_B) and totality of into_bytes on both sides for all n (Kani, part C18_K). Outside: Jubjub/hash operations, multi-instruction programs, codecs.", "DESIGN 3 C18")
 claim("C19", "A (auto-smt) + C (csmt)", "z3 regular-language theory vs the dumped automaton of the real compiler unrolled over a symbolic word; SMT over the extracted parser / base64 circuits",
-      "Language + marker equivalence for every word of length <= N (8 quick / 16 thorough) over a regex family incl. the library's own specs, per-state reachability/finality by emptiness queries, shipped automaton = fresh compilation; in-circuit parse and base64 decode sound for stated lengths.",
+      "Language + marker equivalence for every word of length <= N (8 quick / 16 thorough) over a regex family incl. the library's own specs, per-state reachability/finality by emptiness queries, shipped automaton = fresh compilation; chips holding 2 and 3 automata (per-automaton acceptance, disjoint and closed state ranges in the merged table); in-circuit parse and base64 decode sound for stated lengths.",
       "Trusted: z3 RegLan (validated against a derivative matcher), as C04 for the circuits. Outside: both-marked intersections, ParserGadget, credential circuits.", "DESIGN 3 C19, 8")
 
 claim("C07", "C (csmt, normal forms)", "constraint rows extracted from the real Poseidon chip propagated to exact linear forms over hash-consed x^5 atoms; equality with the textbook permutation decided as ground coefficient queries (z3 || cvc5, perturbed twin must be sat) + plain engine-C SMT queries for the full rounds and the variable-length control cells; the real generic off-circuit code run on a symbolic field",
